@@ -67,7 +67,9 @@ def sampler_kwargs(task):
                     flow_config=dict(n_blocks=2, n_neurons=4, n_layers=1),
                     training_config=dict(max_epochs=task.get("max_epochs", 10), patience=5))
     nlive = task.get("nlive", 30)
-    return dict(nlive=nlive, plot=False, seed=task.get("seed", 3), stopping=task.get("stopping", 0.5),
+    # plot=True (the library default) makes update_state produce the state / trace / insertion-index
+    # plots every nlive iterations: the functions called there are on the signal path too
+    return dict(nlive=nlive, plot=bool(task.get("plot", False)), seed=task.get("seed", 3), stopping=task.get("stopping", 0.5),
                 max_iteration=task.get("max_iteration", 600), analytic_priors=True,
                 maximum_uninformed=task.get("maximum_uninformed", 40), poolsize=task.get("poolsize", 20),
                 flow_config=dict(n_blocks=2, n_neurons=4, max_epochs=task.get("max_epochs", 8), patience=4),
@@ -75,6 +77,7 @@ def sampler_kwargs(task):
 
 
 def quiet():
+    os.environ.setdefault("MPLBACKEND", "Agg")
     logging.disable(logging.CRITICAL)
     import warnings
     warnings.filterwarnings("ignore")
